@@ -56,6 +56,37 @@ PURE_TYPES = [('list', I), ('set', I), ('tuple', [I, S]), ('vtuple', I), ('dict'
               ('opt', ('dict', S, ('list', I)))]
 
 
+class CastKeys(Schema):
+    __options__ = Options(cast_keyword_str=True, addition=True)
+    x: int = 0
+
+
+CAST_INPUTS = [{1: 'one'}, {1: 'one', 'x': '2'}, {'x': 1, 2: [3]}, {(1, 2): 'pair'}, {None: 0, 'x': '5'}, {'x': 'bad', 3: 4}, {}]
+
+
+@ob('input/cast-keys', marks=['accept', 'reject'], budget=(40, 120),
+    bounds='Schema with Options(cast_keyword_str=True, addition=True) fed through __from__, type_transform and as List[...] element '
+           'with 7 dicts holding non-string keys: the caller\'s mapping keeps its keys, order and values')
+def input_cast_keys(V):
+    x = fresh(V.pick('x', CAST_INPUTS))
+    how = V.pick('how', ['from', 'type_transform', 'list-element'])
+    keys_before = list(x.keys())
+    before = snap(x)
+    try:
+        if how == 'from':
+            CastKeys.__from__(x)
+        elif how == 'type_transform':
+            type_transform(x, CastKeys)
+        else:
+            type_transform([x], Rule.parse_annotation(List[CastKeys]))
+        ok = True
+    except Exception:  # noqa
+        ok = False
+    V.check(snap(x) == before and list(x.keys()) == keys_before, 'pure:input-mutated',
+            lambda: 'CastKeys via %s: input keys %r became %r' % (how, keys_before, list(x.keys())))
+    V.cover('accept' if ok else 'reject')
+
+
 def _input_pure(V, lo, hi):
     types_ = PURE_TYPES[lo:hi]
     with V.notrace():
